@@ -26,7 +26,7 @@ def family_structures():
     }
 
 
-def make_world(nchrom, fam, k, recomb_chroms, change_chroms, seed, change_mode="hom", nested=False, stagger=False):
+def make_world(nchrom, fam, k, recomb_chroms, change_chroms, seed, change_mode="hom", nested=False, stagger=False, change_kind="SNV"):
     """nested (trios, k = 6): variants 2 and 3 are heterozygous in every member (their own, read-connected phase set)
     and lie inside the interval in which the child's paternal haplotype recombines; the outer variants 0, 1, 4, 5 are
     joined by paired reads.  change_mode: the VCF claims 0/1 where the reads say 0/0 ("hom"), 1/1 where the reads
@@ -35,6 +35,9 @@ def make_world(nchrom, fam, k, recomb_chroms, change_chroms, seed, change_mode="
     chroms = []
     for ci in range(nchrom):
         vs = [{"pos": 60 + 40 * i, "kind": "SNV", "len": 1} for i in range(k)]
+        if change_kind != "SNV" and f"chr{ci + 1}" in change_chroms:
+            # the record whose genotype the run changes is an indel (listed as the VCF record, not in a normalised form)
+            vs[k - 1] = {"pos": 60 + 40 * (k - 1), "kind": change_kind, "len": 2}
         chroms.append({"name": f"chr{ci + 1}", "length": 60 + 40 * k + 60, "variants": vs})
     haps = {s: {} for s in samples}
     children = {c: (f, m) for c, f, m in trios}
@@ -116,7 +119,7 @@ def read_table(path):
         for line in f:
             if line.startswith("#"):
                 continue
-            rows.append(line.rstrip("\n").split())
+            rows.append(line.rstrip("\n").split("\t") if "\t" in line else line.split())
     return rows
 
 
@@ -253,7 +256,14 @@ def judge(inst):
                     diff.add((s, ri["chrom"], ri["pos"], "/".join(map(str, sorted(a))), "/".join(map(str, sorted(b)))))
         got = set()
         for r in tabs["gt"] or []:
+            if len(r) < 7:
+                viols.append(V("gt-list", f"malformed line in the changed-genotype list: {r}"))
+                continue
             got.add((r[0], r[1], int(r[2]), r[5], r[6]))
+            # the listed REF / ALT are those of the VCF record at that position
+            recs = [x for x in inp["records"] if x["chrom"] == r[1] and x["pos"] in (int(r[2]), int(r[2]) + 1)]
+            if not any(x["ref"] == r[3] and ",".join(x["alt"]) == r[4] for x in recs):
+                viols.append(V("gt-list", f"changed-genotype list line {r} names no record of the VCF (records near that position: {[(x['pos'], x['ref'], x['alt']) for x in recs]})"))
         # the list prints 0-based positions; accept either convention, consistently
         got0 = {(s, c, p + 1, o, n) for s, c, p, o, n in got}
         if got0 != diff and got != diff:
@@ -314,6 +324,10 @@ def worlds(tier):
                                     opts["chromosomes"] = chrsel
                                 world, tr = make_world(nchrom, fam, k, recomb, change, seed)
                                 yield {"world": world, "trios": [list(t) for t in tr], "opts": opts, "lists": lists, "families": families, "fam": fam}
+                                if change and nchrom <= 2:
+                                    for ck in ("DEL", "INS"):
+                                        world, tr = make_world(nchrom, fam, k, recomb, change, seed, change_kind=ck)
+                                        yield {"world": world, "trios": [list(t) for t in tr], "opts": opts, "lists": lists, "families": families, "fam": fam}
                                 if change:
                                     # genotype changes towards heterozygous (and both directions), both tags
                                     for mode in ("het", "both") if T else ("het",):
